@@ -1,0 +1,26 @@
+//go:build verif
+
+package cipher
+
+import "time"
+
+// VerifCipherListAt returns stateless clones of the cipher list that the
+// process-wide cache serves for the given password at instant t, together with
+// the epoch and create time of the cache entry. It only exists in builds with
+// the "verif" tag (simulation harness).
+func VerifCipherListAt(password []byte, t time.Time) ([]BlockCipher, int64, time.Time, error) {
+	entry, err := getCachedCiphers(string(password), t)
+	if err != nil {
+		return nil, 0, time.Time{}, err
+	}
+	blocks := make([]BlockCipher, len(entry.cipherList))
+	for i, template := range entry.cipherList {
+		blocks[i] = template.CloneStatelessFast()
+	}
+	return blocks, entry.epoch, entry.createTime, nil
+}
+
+// VerifTryDecryptAt is TryDecrypt with an explicit instant.
+func (d *StatelessDecryptor) VerifTryDecryptAt(ciphertext, dst []byte, now time.Time) (BlockCipher, []byte, error) {
+	return d.tryDecryptAt(ciphertext, dst, now)
+}
